@@ -208,6 +208,15 @@ func parseServiceConfig(js string, maxAttempts int) *serviceconfig.ParseResult {
 	}
 	sc.lbConfig = cfg
 
+	if sc.retryThrottling != nil {
+		if mt := sc.retryThrottling.MaxTokens; mt <= 0 || mt > 1000 {
+			return &serviceconfig.ParseResult{Err: fmt.Errorf("invalid retry throttling config: maxTokens (%v) out of range (0, 1000]", mt)}
+		}
+		if tr := sc.retryThrottling.TokenRatio; tr <= 0 {
+			return &serviceconfig.ParseResult{Err: fmt.Errorf("invalid retry throttling config: tokenRatio (%v) may not be negative", tr)}
+		}
+	}
+
 	if rsc.MethodConfig == nil {
 		return &serviceconfig.ParseResult{Config: &sc}
 	}
@@ -257,14 +266,6 @@ func parseServiceConfig(js string, maxAttempts int) *serviceconfig.ParseResult {
 		}
 	}
 
-	if sc.retryThrottling != nil {
-		if mt := sc.retryThrottling.MaxTokens; mt <= 0 || mt > 1000 {
-			return &serviceconfig.ParseResult{Err: fmt.Errorf("invalid retry throttling config: maxTokens (%v) out of range (0, 1000]", mt)}
-		}
-		if tr := sc.retryThrottling.TokenRatio; tr <= 0 {
-			return &serviceconfig.ParseResult{Err: fmt.Errorf("invalid retry throttling config: tokenRatio (%v) may not be negative", tr)}
-		}
-	}
 	return &serviceconfig.ParseResult{Config: &sc}
 }
 
